@@ -268,9 +268,21 @@ func (w *world) emitShim() string {
 			}
 		}
 	}
+	// string constants the harness needs verbatim (the page templates)
+	if p := w.pkgs["pkg/provider"]; p != nil {
+		sb.WriteString("\t\"consts\": map[string]string{\n")
+		for _, name := range shimConsts {
+			if obj, ok := p.Types.Scope().Lookup(name).(*types.Const); ok && obj != nil {
+				fmt.Fprintf(&sb, "\t\t%q: %s,\n", name, name)
+			}
+		}
+		sb.WriteString("\t},\n")
+	}
 	sb.WriteString("}\n")
 	return sb.String()
 }
+
+var shimConsts = []string{"postTemplate", "logoutTemplate"}
 
 // shimExtra: unexported, untranslated helpers the harness calls to obtain the library's own view of a request.
 var shimExtra = []string{"getAuthRequestFromRequest", "getLogoutRequestFromRequest", "makeAttributeQueryResponse", "makeAssertion", "makeResponse", "createRedirectSignature", "createPostSignature", "getMetadataCert"}
